@@ -247,7 +247,7 @@ VARIANTS = [
     {"name": "R6 no flush after the last line", "file": FMT, "expect": "C11.R6",
      "old": "        _serialize_pending_packed()\n        return msg\n", "new": "        return msg\n"},
     {"name": "P6 everything flushed once at the end of input", "file": FMT, "expect": "silent",
-     "old": "                _serialize_pending_packed()\n                cur_block = Block(", "new": "                cur_block = Block("},
+     "old": "                _serialize_pending_packed()\n                block_name = re.search(", "new": "                block_name = re.search("},
     {"name": "P6 closure renamed", "expect": "silent",
      "edits": [{"file": FMT, "old": "_serialize_pending_packed", "new": "_flush_packed", "all": True}]},
     {"name": "P6 the closure's drain loop moved into a static helper taking the work list", "expect": "silent",
@@ -349,14 +349,14 @@ VARIANTS = [
                 "new": "                pieces = [f\"[{block_name}]{block_suffix}\\n\"]\n                string += pieces[0]\n"}]},
     {"name": "R12 binary quaternion packer renormalises hand-written components", "file": "hippolyzer/lib/base/message/data_packer.py",
      "expect": "C11.R12",
-     "old": "            return struct_obj.pack(*x[:needed_elems])\n",
-     "new": "            norm_ = sum(c * c for c in x) ** 0.5 or 1.0\n"
-            "            return struct_obj.pack(*[c / norm_ for c in x[:needed_elems]])\n"},
+     "old": "            return struct_obj.pack(*x.data(needed_elems)[:needed_elems])\n",
+     "new": "            comps = x.data(needed_elems)[:needed_elems]\n            norm_ = sum(c * c for c in comps) ** 0.5 or 1.0\n"
+            "            return struct_obj.pack(*[c / norm_ for c in comps])\n"},
     {"name": "P12 binary quaternion packer only warns about non-unit input", "file": "hippolyzer/lib/base/message/data_packer.py",
      "expect": "silent",
-     "old": "            return struct_obj.pack(*x[:needed_elems])\n",
+     "old": "            return struct_obj.pack(*x.data(needed_elems)[:needed_elems])\n",
      "new": "            if abs(sum(c * c for c in x) - 1.0) > 0.01:\n                pass\n"
-            "            return struct_obj.pack(*x[:needed_elems])\n"},
+            "            return struct_obj.pack(*x.data(needed_elems)[:needed_elems])\n"},
     {"name": "R13 C strings decoded with errors='replace'", "expect": "C11.R13",
      "edits": [{"file": SER, "old": ".rstrip(b\"\\x00\").decode(\"utf8\")", "new": ".rstrip(b\"\\x00\").decode(\"utf8\", \"replace\")", "all": True}]},
     {"name": "P13 C strings decoded with an explicit strict handler", "expect": "silent",
